@@ -27,3 +27,22 @@ Proof.
     rewrite get_set_neq by (intros ->; apply Hne; reflexivity). reflexivity.
   - apply beq_neq in Ebb. rewrite get_set_neq by exact Ebb. reflexivity.
 Qed.
+
+(* carry_meta (MergeMetadata): what the upload sends is kept, what the replaced object had is kept
+   for every header the upload does not send, and nothing is added when there is no current object *)
+Lemma carry_meta_keeps s b k m kv : In kv m -> In kv (carry_meta s b k m).
+Proof.
+  intros Hin. unfold carry_meta. destruct (get_object s b k) as [e|v sv]; [exact Hin|].
+  destruct (vd_marker v); [exact Hin|]. apply in_or_app. left. exact Hin.
+Qed.
+
+Lemma carry_meta_absent s b k m e : get_object s b k = OErr e -> carry_meta s b k m = m.
+Proof. intros Hg. unfold carry_meta. rewrite Hg. reflexivity. Qed.
+
+Lemma carry_meta_src s b k m v sv kv :
+  get_object s b k = OObj v sv -> vd_marker v = false -> In kv (vd_meta v) ->
+  meta_has (fst kv) m = false -> In kv (carry_meta s b k m).
+Proof.
+  intros Hg Hm Hin Hh. unfold carry_meta. rewrite Hg, Hm. apply in_or_app. right.
+  apply filter_In. split; [exact Hin|]. rewrite Hh. reflexivity.
+Qed.
